@@ -58,13 +58,20 @@ def rsLine (al mi mn mx cd me ae inm st fl ct et va cc bk ln : String) : String 
 
 /-! ### cache histories -/
 
-/-- stand-in for zlib in the executable driver: 24 label-dependent filler bytes, then the
-    content (injective; only lengths ≥ 8 and determinism matter for the correspondence) -/
-def toyCompress (c : Coding) (x : Bytes) : Bytes := List.replicate 24 (c.label.length.toUInt8) ++ x
+/-- stand-in for zlib in the executable driver: 16 label-dependent filler bytes, the content length
+    (8 bytes, big endian), then the content (injective and self-delimiting like a real stream;
+    only lengths ≥ 8 and determinism matter for the correspondence) -/
+def be8 (n : Nat) : Bytes := (List.range 8).reverse.map fun i => UInt8.ofNat (n / 256 ^ i % 256)
+
+def toyCompress (c : Coding) (x : Bytes) : Bytes :=
+  List.replicate 16 (c.label.length.toUInt8) ++ be8 x.length ++ x
+
+def toyComplete (c : Coding) (b : Bytes) : Bool :=
+  b.length ≥ 24 && b.take 16 == List.replicate 16 (c.label.length.toUInt8)
+    && (b.drop 16).take 8 == be8 (b.length - 24)
 
 def toyDecode (c : Coding) (b : Bytes) : String :=
-  if b.take 24 = List.replicate 24 (c.label.length.toUInt8) ∧ b.length ≥ 24 then "d" ++ toHex (b.drop 24)
-  else "BAD(model)"
+  if toyComplete c b then "d" ++ toHex (b.drop 24) else "BAD(model)"
 
 /-- validator of a source version: the ETag is a function of (inode, size, mtime) -/
 def validatorOf (v size : Nat) : Nat := v * 1000000 + size
@@ -144,7 +151,7 @@ def listEntry : Name × Bytes → String
   | (.final k, b) => "F:" ++ toString k.path ++ ":" ++ vtokOf k.validator ++ ":" ++ labelStr k.coding ++ ":" ++
       toyDecode k.coding b
   | (.tmp k pid, b) => "T:" ++ toString k.path ++ ":" ++ vtokOf k.validator ++ ":" ++ labelStr k.coding ++ ":" ++
-      toString pid ++ ":" ++ (if b.length < 24 then "part:" ++ toString b.length else "full:" ++ toyDecode k.coding b)
+      toString pid ++ ":" ++ (if toyComplete k.coding b then "full:" ++ toyDecode k.coding b else "part:" ++ toString b.length)
 
 def cacheLine (toks : List String) : String :=
   match toks.mapM parseOp with
